@@ -3,8 +3,8 @@ import MV.Model.PagedSlice
 # Plain-slice specification for `PagedSlice` (C16)
 
 State: the list of elements.  `Del` is the swap-delete the type documents (the last element moves
-into the hole); growing appends zero values; writes outside `0..len-1` through `Set` are ignored,
-through the growing/batch writers a negative index panics; `Get` outside `0..len-1` is not
+into the hole); growing appends zero values; writes outside `0..len-1` through `Set`/`BatchSet` are ignored,
+through the growing writers a negative index panics; `Get` outside `0..len-1` is not
 determined (the Go code has no bounds check there).
 -/
 namespace MV.Spec.Slice
@@ -23,6 +23,11 @@ def writeAll (l : List Int) : List Int → List Int → List Int × Bool
       | some l' => writeAll l' is vs
       | none => (l, false)
   | _, _ => (l, true)
+
+/-- writes outside `0..len-1` are ignored -/
+def setAll (l : List Int) : List Int → List Int → List Int
+  | i :: is, v :: vs => setAll ((write l i v).getD l) is vs
+  | _, _ => l
 
 def del (l : List Int) (i : Int) : List Int :=
   if i < 0 ∨ i ≥ l.length then l else (l.set i.toNat (l.getLastD 0)).dropLast
@@ -46,9 +51,7 @@ def step (l : List Int) : Op → List Int × Out
   | .batchSet is vs =>
       if is.length ≠ vs.length then (l, .panic)
       else if is.isEmpty then (l, .unit)
-      else match writeAll l is vs with
-        | (l', true) => (l', .unit)
-        | (l', false) => (l', .undet)      -- a write beyond `len`: panic or silent, not determined
+      else (setAll l is vs, .unit)
   | .dump => (l, .ints l)
 
 def run (l : List Int) : List Op → List Out
